@@ -21,6 +21,9 @@ C=$(run); echo "(c) $C" | tee -a $LOG
 clean
 okA=$(echo "$A" | grep -c "test result: ok. 41 passed; 0 failed")
 okB=$(echo "$B" | grep -c "test result: FAILED")
+# a test binary that dies (abort, stack overflow, process::exit from a panic hook) prints no result line for the lib tests
+nB=$(echo "$B" | grep -c "^test result")
+if [ "$okB" -eq 0 ] && [ "$nB" -lt 2 ]; then okB=1; echo "(b) lib test binary died without a result line: counted as failing"; fi
 okC=$(echo "$C" | grep "^test result" | head -1 | grep -c "test result: ok")
 echo "okA=$okA okB=$okB okC=$okC"
 if [ "$okA" -ge 1 ] && [ "$okB" -ge 1 ] && [ "$okC" -ge 1 ]; then
